@@ -256,9 +256,18 @@ def run_case(case, replay=None):
                                     m = GMMMachine.from_hdf5(f, ubm=ubm)
                             rec.faults["F5_restart_hdf5_from"] = rec.faults.get("F5_restart_hdf5_from", 0) + 1
                         else:
-                            other = GMMMachine(o["other_c"])
-                            other.means = np.zeros((o["other_c"], o["other_d"]))
-                            other.variances = np.ones((o["other_c"], o["other_d"]))
+                            oc, od = o["other_c"], o["other_d"]
+                            if m.trainer == "map":
+                                # a MAP machine of another shape that is handed the right prior
+                                p2 = GMMMachine(oc)
+                                p2.means = np.zeros((oc, od))
+                                p2.variances = np.ones((oc, od))
+                                other = GMMMachine(oc, trainer="map", ubm=p2)
+                                other.ubm = ubm
+                            else:
+                                other = GMMMachine(oc)
+                                other.means = np.zeros((oc, od))
+                                other.variances = np.ones((oc, od))
                             if o["by"] == "path":
                                 other.load(path)
                             else:
